@@ -41,7 +41,8 @@ def _template_nodes(job):
 
 
 def _worker(args):
-    w, metrics, knobs, d = args
+    w, metrics, knobs, d = args[:4]
+    prelude = args[4] if len(args) > 4 else None
     try:
         import functools, operator
         import numpy as np
@@ -64,6 +65,17 @@ def _worker(args):
         spec.mapper.metrics = functools.reduce(operator.or_, [getattr(Metrics, m) for m in metrics])
         for k, v in (knobs or {}).items():
             setattr(spec.mapper, k, v)
+        if prelude is not None:
+            # call history: another spec is mapped first in this process (whatever it leaves in process-wide caches
+            # is there when the spec under test is mapped)
+            qa, qw = os.path.join(d, tag + "_pa.yaml"), os.path.join(d, tag + "_pw.yaml")
+            open(qa, "w").write(ms.arch_yaml(prelude, mc.keep_yaml(prelude)))
+            open(qw, "w").write(ms.workload_yaml(prelude))
+            spec0 = Spec.from_yaml(qa, qw)
+            spec0.mapper.metrics = spec.mapper.metrics
+            for k, v in (knobs or {}).items():
+                setattr(spec0.mapper, k, v)
+            ffm.make_pmappings(spec0, print_progress=False)
         del _verif.RECORDS[:]
         ffm.make_pmappings(spec, print_progress=False)
         recs = list(_verif.RECORDS)
@@ -136,10 +148,11 @@ def _worker(args):
         return {"exception": "%s: %s" % (type(e).__name__, e), "traceback": traceback.format_exc()[-3000:]}
 
 
-def collect(ck, worlds, metrics, knobs=None, nproc=8):
+def collect(ck, worlds, metrics, knobs=None, nproc=8, preludes=None):
     d = os.path.join(ck.work, "tiles")
+    preludes = preludes or [None] * len(worlds)
     with ProcessPoolExecutor(nproc) as ex:
-        outs = list(ex.map(_worker, [(w, metrics, knobs, d) for w in worlds]))
+        outs = list(ex.map(_worker, [(w, metrics, knobs, d, q) for w, q in zip(worlds, preludes)]))
     for o in outs:
         ck.evaluations += 1
         if "exception" in o:
